@@ -1,6 +1,8 @@
 package main
 
 import (
+	"sort"
+	"strings"
 	"go/token"
 	"go/types"
 
@@ -14,6 +16,55 @@ func (c *FnCtx) checkMapWrite(tt *types.Map, m, k, v string, pos token.Pos)     
 func (c *FnCtx) checkMapDelete(tt *types.Map, m, k string, pos token.Pos)                   {}
 func (c *FnCtx) checkAppendWrite(st *types.Slice, s, inPlace, addLen string, pos token.Pos) {}
 func (c *FnCtx) checkCopyWrite(st *types.Slice, d, n string, pos token.Pos)                 {}
-func (c *FnCtx) checkFrameAtReturn(x *ssa.Return)                                           {}
 func (c *FnCtx) jsonLoad(term string, t types.Type, a *addr)                                {}
 func (c *FnCtx) jsonLoadMap(term string, tt *types.Map)                                     {}
+
+// checkFrameAtReturn: the callee side of modifies. Every pre-existing object outside the
+// modifies clause has the state it had at entry.
+func (c *FnCtx) checkFrameAtReturn(x *ssa.Return) {
+	if c.con == nil || c.con.ModAll {
+		return
+	}
+	env := c.conEnv()
+	env.pkg = c.pkgTypes()
+	env.heap = c.entry
+	env.resolve = c.resolverAtEntry()
+	fr := c.modFrame(c.con, env)
+	var hs []string
+	for _, h := range c.heapOrder {
+		if c.isLocalHeap(h) || h == "ALLOC" || h == "OPAQUE" {
+			continue
+		}
+		if !strings.HasPrefix(c.heapSort[h], "(Array Int") {
+			continue
+		}
+		cur, ok := c.cur[h]
+		if !ok || cur == c.entry[h] {
+			continue
+		}
+		hs = append(hs, h)
+	}
+	sort.Strings(hs)
+	props := c.frameProps()
+	for _, h := range hs {
+		refs, listed := fr[h]
+		if listed && refs == nil {
+			continue
+		}
+		r := c.fresh("r")
+		c.declare(r, "Int")
+		var ne []string
+		for _, ref := range refs {
+			ne = append(ne, not(eq(r, ref)))
+		}
+		guard := and(append([]string{c.guard(), le("0", r), le(r, c.entry["ALLOC"])}, ne...)...)
+		c.oblige("frame:"+h, props, guard, eq(sel(c.cur[h], r), sel(c.entry[h], r)), x.Pos(), nil, "modifies: pre-existing objects outside the modifies clause are unchanged in "+h)
+	}
+}
+
+func (c *FnCtx) frameProps() []string {
+	if c.opts != nil && c.opts.props != nil {
+		return c.opts.props
+	}
+	return []string{"C05"}
+}
